@@ -21,6 +21,23 @@ CLAIMED = {
             'DESIGN.md section 4 C20'),
 }
 
+CLAIMED['C14'] = (
+    'TLA+ spec HeapDict.tla model-checked (TopK, OutOK, ReadOnly); TLC-enumerated push histories replayed into the real '
+    'HeapDict; random runs of the real HeapDict trace-validated by HeapDictTrace.tla; search result lists judged by MMTrace.tla',
+    'Container: exhaustive over all push sequences within bounds (2 keys, 3 values x 2 tags, cap 0..3, length <= 4/5) at design '
+    'level, every enumerated history replayed, plus event-by-event trace validation of long random runs with ties and '
+    'str/int/float keys. Searches: cap and best-first order judged on every recorded result list.',
+    'heapq modelled by its contract; tie-breaks among equal values left open. ' + TRUST,
+    'DESIGN.md section 4 C14')
+CLAIMED['C08'] = (
+    'TLA+ spec DiagCache.tla (cache state machine over series versions): complete state graph checked for NoStale/ServedFresh; '
+    'TLC-enumerated and TLC-simulated behaviours replayed into real TBRMMDiagnostics objects, all quantities compared with a fresh object after every step',
+    'Complete reachable graph of the cache model (no depth bound); all call histories to depth 3/4 and thousands of simulated '
+    'histories of depth 12-15 replayed, observing all public quantities off a deep copy after every step; the pre-repair '
+    'model variant is re-checked to still produce the stale-verdict counterexample.',
+    'One series library (2 treatment x 3 control versions, 40 points) per seed; exact value comparison. ' + TRUST,
+    'DESIGN.md section 4 C08')
+
 PENDING_REASON = 'check not built yet in this round (planned, see DESIGN.md section 10); not claimed until it runs'
 
 
